@@ -4080,6 +4080,14 @@ func (a *Association) getDataPacketsToRetransmit(budgetScaled *int64, consumed *
 			continue
 		}
 
+		if chunkPayload.abandoned() {
+			// Marked lost earlier, but abandoned since (e.g. by a fast
+			// retransmission in between): it must not be sent again.
+			chunkPayload.retransmit = false
+
+			continue
+		}
+
 		if i == 0 && int(a.RWND()) < len(chunkPayload.userData) {
 			// allow as zero window probe
 		} else if bytesToSend+len(chunkPayload.userData) > int(awnd) {
